@@ -3,6 +3,7 @@ package rules
 import (
 	"fmt"
 	"go/ast"
+	"go/constant"
 	"go/token"
 	"go/types"
 	"sort"
@@ -12,6 +13,7 @@ import (
 
 	"verif/checker/internal/flow"
 	"verif/checker/internal/load"
+	"verif/checker/internal/ref"
 )
 
 // R01.14: parenthesis decisions of the JS printer.
@@ -1411,4 +1413,311 @@ func (c *Ctx) r0124(pk *packages.Package) {
 		c.R.Check(good, rule, fmt.Sprintf("js.toNullishExpr/%s=true#%d only when the other branch is undefined", nospace(str(as.Lhs[0])), n), c.pos(as), "behind isUndefined(<other branch>)", "the conditional becomes an optional chain although its other branch is only known through "+other+": `a==null?null:a.b` → `a?.b` yields undefined where the source yields null")
 	}
 	c.R.Floor(rule, "optional links created in toNullishExpr", n, 3)
+}
+
+// R01.25: optimizeCondExpr drops an operand of `c?x:y` only with a licence for that operand.
+func (c *Ctx) r0125(pk *packages.Package) {
+	const rule = "R01.25"
+	c.R.Rule(rule, "js.optimizeCondExpr returns an expression built from the three operands of the conditional (expr.Cond, expr.X, expr.Y; locals count for the operands their definitions and later stores mention). A result that leaves an operand out evaluates it one time less — `a?a:b` → `a||b` reads a once, `c?!0:y` → `c||y` has no x at all. That is only right behind a licence for the omitted operand: for X or Y the true outcome of isEqualExpr(…, expr.O …) (two variable reads, see R01.17) or of a flag defined as isTrue(expr.O) / isFalse(expr.O) (a literal); for Cond the ok flag of isTruthy(expr.Cond), whose first result says which branch a constant condition never evaluates (true: Y, false: X). For every return that omits an operand there is no feasible path (repeated tests of one flag correlated) from the entry to the return that avoids all licences for it. So `o.p?o.p:c` → `o.p||c` under a second, wider equality predicate (a getter would run once instead of twice) is reported")
+	info := pk.TypesInfo
+	fd := c.fn(rule, pk, "jsMinifier.optimizeCondExpr")
+	if fd == nil {
+		return
+	}
+	if fd.Type.Params == nil || len(fd.Type.Params.List) == 0 || len(fd.Type.Params.List[0].Names) == 0 {
+		c.R.Unres(rule, "js.optimizeCondExpr/parameter", c.pos(fd), "no parameter")
+		return
+	}
+	param := info.Defs[fd.Type.Params.List[0].Names[0]]
+	ops := []string{"Cond", "X", "Y"}
+	type set map[string]bool
+	mention := map[types.Object]set{}
+	var mentions func(e ast.Node) set
+	mentions = func(e ast.Node) set {
+		out := set{}
+		var walk func(x ast.Node) bool
+		walk = func(x ast.Node) bool {
+			switch y := x.(type) {
+			case *ast.SelectorExpr:
+				if id, ok := ast.Unparen(y.X).(*ast.Ident); ok && info.Uses[id] == param {
+					for _, o := range ops {
+						if y.Sel.Name == o {
+							out[o] = true
+							return false
+						}
+					}
+				}
+			case *ast.Ident:
+				if o := info.Uses[y]; o == param {
+					for _, k := range ops {
+						out[k] = true
+					}
+				} else if m, ok := mention[o]; ok {
+					for k := range m {
+						out[k] = true
+					}
+				}
+			}
+			return true
+		}
+		ast.Inspect(e, walk)
+		return out
+	}
+	baseObj := func(e ast.Expr) types.Object {
+		for {
+			switch x := ast.Unparen(e).(type) {
+			case *ast.Ident:
+				if o := info.Defs[x]; o != nil {
+					return o
+				}
+				return info.Uses[x]
+			case *ast.SelectorExpr:
+				e = x.X
+			case *ast.IndexExpr:
+				e = x.X
+			case *ast.StarExpr:
+				e = x.X
+			default:
+				return nil
+			}
+		}
+	}
+	// locals: fixpoint over definitions and stores
+	for changed := true; changed; {
+		changed = false
+		ast.Inspect(fd.Body, func(x ast.Node) bool {
+			as, ok := x.(*ast.AssignStmt)
+			if !ok {
+				return true
+			}
+			for i, l := range as.Lhs {
+				o := baseObj(l)
+				if o == nil || o == param {
+					continue
+				}
+				if bt, isBasic := o.Type().Underlying().(*types.Basic); isBasic && bt.Info()&types.IsBoolean != 0 {
+					continue // a flag about an operand is not the operand
+				}
+				var rhs ast.Expr
+				if len(as.Rhs) == len(as.Lhs) {
+					rhs = as.Rhs[i]
+				} else if len(as.Rhs) == 1 {
+					rhs = as.Rhs[0]
+				}
+				if rhs == nil {
+					continue
+				}
+				for k := range mentions(rhs) {
+					if mention[o] == nil {
+						mention[o] = set{}
+					}
+					if !mention[o][k] {
+						mention[o][k] = true
+						changed = true
+					}
+				}
+			}
+			return true
+		})
+	}
+	// flags: ident defined once from isTrue/isFalse(expr.O) or isTruthy(expr.Cond)
+	flagOf := map[types.Object]string{} // object -> operand it licenses
+	var truthy types.Object
+	ast.Inspect(fd.Body, func(x ast.Node) bool {
+		as, ok := x.(*ast.AssignStmt)
+		if !ok {
+			return true
+		}
+		for i, l := range as.Lhs {
+			id, ok := l.(*ast.Ident)
+			if !ok {
+				continue
+			}
+			o := info.Defs[id]
+			if o == nil {
+				continue
+			}
+			var rhs ast.Expr
+			if len(as.Rhs) == len(as.Lhs) {
+				rhs = as.Rhs[i]
+			} else if len(as.Rhs) == 1 {
+				rhs = as.Rhs[0]
+			}
+			call, ok := ast.Unparen(rhs).(*ast.CallExpr)
+			if !ok || len(call.Args) != 1 {
+				continue
+			}
+			cn := calleeName(info, call)
+			m := mentions(call.Args[0])
+			switch {
+			case strings.HasSuffix(cn, "/js.isTrue") || strings.HasSuffix(cn, "/js.isFalse"):
+				if len(m) == 1 && (m["X"] || m["Y"]) {
+					for k := range m {
+						flagOf[o] = k
+					}
+				}
+			case strings.HasSuffix(cn, "/js.isTruthy"):
+				// truthy, ok := isTruthy(expr.Cond): the second result is the licence to drop the condition, the first says
+				// which branch is never evaluated (true: Y, false: X)
+				if len(m) == 1 && m["Cond"] && len(as.Lhs) == 2 {
+					if i == 1 {
+						flagOf[o] = "Cond"
+					} else {
+						truthy = o
+					}
+				}
+			}
+		}
+		return true
+	})
+	g := c.graph(pk, fd)
+	licence := func(q *flow.Node, op string) bool {
+		if q.Of == nil || q.Of.Kind != flow.KCond {
+			return false
+		}
+		if id, ok := ast.Unparen(q.Of.Expr).(*ast.Ident); ok && truthy != nil && info.Uses[id] == truthy {
+			// a constant condition: the branch not taken is never evaluated
+			return op == "Y" && q.Kind == flow.KTrue || op == "X" && q.Kind == flow.KFalse
+		}
+		if q.Kind != flow.KTrue {
+			return false
+		}
+		switch e := ast.Unparen(q.Of.Expr).(type) {
+		case *ast.Ident:
+			return flagOf[info.Uses[e]] == op
+		case *ast.CallExpr:
+			if strings.HasSuffix(calleeName(info, e), "/js.isEqualExpr") && len(e.Args) == 2 && op != "Cond" {
+				for _, a := range e.Args {
+					if sel, ok := ast.Unparen(a).(*ast.SelectorExpr); ok && sel.Sel.Name == op {
+						if id, ok := ast.Unparen(sel.X).(*ast.Ident); ok && info.Uses[id] == param {
+							return true
+						}
+					}
+				}
+			}
+		}
+		return false
+	}
+	n, omitting := 0, 0
+	seen := map[string]int{}
+	for _, y := range g.Nodes {
+		rs := retStmt(y)
+		if rs == nil || len(rs.Results) != 1 || c.enclosingLit(rs) != nil {
+			continue
+		}
+		n++
+		m := mentions(rs.Results[0])
+		for _, op := range ops {
+			if m[op] {
+				continue
+			}
+			omitting++
+			op, y := op, y
+			p := g.Path(flow.Search{From: []*flow.Node{g.Entry}, Goal: func(q *flow.Node) bool { return q == y }, Avoid: func(q *flow.Node) bool { return licence(q, op) }, Track: true})
+			key := nospace(str(rs.Results[0]))
+			if len(key) > 60 {
+				key = key[:60]
+			}
+			seen[key+op]++
+			c.R.Check(p == nil, rule, fmt.Sprintf("js.optimizeCondExpr/return %s#%d omits %s only with a licence", key, seen[key+op], op), c.pos(rs), "every path to the return passes a licence for expr."+op, "the result leaves expr."+op+" out and can be reached without isEqualExpr(…, expr."+op+") / a literal flag for it holding: "+pathStr(c, g, p)+" — the operand is evaluated one time less (`o.p?o.p:c` → `o.p||c` runs a getter once, `(o.p=v)?o.p:c` no longer reads back)")
+		}
+	}
+	c.R.Floor(rule, "returns of optimizeCondExpr", n, 12)
+	c.R.Floor(rule, "operand omissions judged", omitting, 10)
+}
+
+// R09.15: every grammar position is printed at the level its production requires.
+func (c *Ctx) r0915(pk *packages.Package) {
+	const rule = "R09.15"
+	c.R.Rule(rule, "the printer asks for parentheses by passing a context level to minifyExpr: an operand whose own level is lower gets wrapped. For the calls minifyExpr(x.F, js.OpL) of package js whose first argument is a field of a syntax-tree node (or the range variable of a loop over a list field) and whose level is a constant, L is at least the level of the ECMA-262 production that field stands for (ref.JSGrammarMinLevel: for-of takes an AssignmentExpression, a conditional's condition a ShortCircuitExpression, class heritage a LeftHandSideExpression, …). A lower level drops parentheses the grammar needs — `for(a of (b,c));` → `for(a of b,c);` is a syntax error; a higher one only adds parentheses")
+	info := pk.TypesInfo
+	// numeric values of the OpPrec constants
+	var jsPkg *types.Package
+	for _, imp := range pk.Types.Imports() {
+		if imp.Path() == pjs {
+			jsPkg = imp
+		}
+	}
+	if jsPkg == nil {
+		c.R.Unres(rule, "package/"+pjs, "-", "parser package not imported")
+		return
+	}
+	level := func(name string) (int64, bool) {
+		k, ok := jsPkg.Scope().Lookup(name).(*types.Const)
+		if !ok {
+			return 0, false
+		}
+		v, ok2 := constant.Int64Val(k.Val())
+		return v, ok2
+	}
+	nodeName := func(t types.Type) string {
+		n := namedTypeName(deref(t))
+		if strings.HasPrefix(n, pjs+".") {
+			return n[len(pjs)+1:]
+		}
+		return ""
+	}
+	n := 0
+	seen := map[string]int{}
+	for _, fd := range load.FuncDecls(pk) {
+		if fd.Body == nil {
+			continue
+		}
+		// range variables over list fields
+		rangeOf := map[types.Object]string{}
+		ast.Inspect(fd.Body, func(x ast.Node) bool {
+			rs, ok := x.(*ast.RangeStmt)
+			if !ok {
+				return true
+			}
+			id, ok := rs.Value.(*ast.Ident)
+			sel, ok2 := ast.Unparen(rs.X).(*ast.SelectorExpr)
+			if !ok || !ok2 {
+				return true
+			}
+			if t := info.TypeOf(sel.X); t != nil {
+				if nn := nodeName(t); nn != "" {
+					rangeOf[info.Defs[id]] = nn + "." + sel.Sel.Name + "[]"
+				}
+			}
+			return true
+		})
+		ast.Inspect(fd.Body, func(x ast.Node) bool {
+			call, ok := x.(*ast.CallExpr)
+			if !ok || len(call.Args) != 2 || !strings.HasSuffix(calleeName(info, call), "/js.(jsMinifier).minifyExpr") {
+				return true
+			}
+			tv, ok := info.Types[call.Args[1]]
+			if !ok || tv.Value == nil {
+				return true
+			}
+			got, _ := constant.Int64Val(tv.Value)
+			key := ""
+			switch a := ast.Unparen(call.Args[0]).(type) {
+			case *ast.SelectorExpr:
+				if t := info.TypeOf(a.X); t != nil {
+					if nn := nodeName(t); nn != "" {
+						key = nn + "." + a.Sel.Name
+					}
+				}
+			case *ast.Ident:
+				key = rangeOf[info.Uses[a]]
+			}
+			want, ok := ref.JSGrammarMinLevel[key]
+			if !ok {
+				return true
+			}
+			need, ok := level(want)
+			if !ok {
+				c.R.Unres(rule, "js."+want, "-", "constant not found in the parser package")
+				return true
+			}
+			n++
+			fn := pk.Name + "." + load.FuncName(fd)
+			seen[fn+key]++
+			c.R.Check(got >= need, rule, fmt.Sprintf("%s/%s printed at its production's level#%d", fn, key, seen[fn+key]), c.pos(call), "level "+str(call.Args[1])+" ≥ "+want, fmt.Sprintf("%s is printed in the context %s, but the grammar takes a production of level %s there: an operand between the two levels (a comma expression, an assignment, a conditional) loses the parentheses it needs and the output does not parse or parses differently", key, str(call.Args[1]), want))
+			return true
+		})
+	}
+	c.R.Floor(rule, "grammar positions with a constant level", n, 25)
 }
